@@ -21,7 +21,15 @@ RULE = ("inputs: every labelled oriented manifold triangle complex of SURF (see 
         "(all triangulations of convex polygons with 0-2 interior points, ccw and cw), ZOO specimens, TET complexes under "
         "3 alphabets x 3 cell orderings, all labelled simple graphs as polylines; x every option combination of every "
         "operator. A case = one distinct (mesh, geometry, operator, option vector); non-trivial = the mesh passed the exact "
-        "conditioning predicate and the operator returned a matrix that was compared entry-wise with the oracle")
+        "conditioning predicate and the operator returned a matrix that was compared entry-wise with the oracle. "
+        "Two deviations of the whole family (fixed strides through every family + named ZOO specimens, never a draw): "
+        "FAR FROM THE ORIGIN = the same mesh translated by (2^k, -2^k, 2^(k-1)) (integer alphabets: the translate and the exact "
+        "oracle stay exact), every clause and option judged with the relative tolerance 256 eps 2^k; "
+        "DEFORMED, THEN REFRESHED = a history on one mesh object: pre-state {every operator called once with its defaults / every "
+        "persistent quantity of mouette.attributes requested / both} x in-place deformation that is not a similarity {scale_xyz(2,1,1/2), "
+        "scale_xyz(1,4,1), last vertex moved through the container, affine map by vertex assignment} x the documented refresh (the "
+        "functions of mouette.attributes called again) and then the complete option sweep against the oracle of the current "
+        "coordinates, run with both values of config.display_duplicate_attribute_warning")
 ASSUMPTIONS = [
     "meshes within the size bounds (<= 6 vertices for the exhaustive families; ZOO specimens up to 25 vertices)",
     "ill-conditioned inputs (a triangle angle or a tetrahedron dihedral angle with cot^2 > 32, i.e. below ~10 degrees or "
@@ -33,11 +41,22 @@ ASSUMPTIONS = [
     "(construction is C02's subject); local face bases are read from the connection object and checked to be orthonormal, "
     "tangent and positively oriented before they are used",
     "relative tolerance 1e-9 of the largest reference entry (absolute floor 1e-12); the blackboard history (which cached "
-    "attribute exists when an operator is called) is C07's subject: operators are called in one fixed order per mesh",
+    "attribute exists when an operator is called) is C07's subject: operators are called in one fixed order per mesh (plus the "
+    "warm-blackboard variant of every task and the deformed-then-refreshed histories below)",
     "call forms: omitting an option means passing its documented default (table PINNED, copied by hand from the signatures and "
     "docstrings of the unchanged tree), options passed positionally in the documented order mean the same as by keyword; the "
     "reference of these clauses is the fully explicit keyword call of the library itself, which the option sweep compares with the "
     "oracle on the same meshes",
+    "far from the origin: inputs are exactly representable, a computation on differences of coordinates is as accurate as at the "
+    "origin and one on absolute coordinates loses eps * 2^k / h (h >= 1 the shortest edge of the integer alphabets): tolerance "
+    "2^(k-45) relative (4.8e-7 at k = 24; the unchanged tree stays below 5e-9 there), so that an error growing like eps * (2^k / h)^2 "
+    "(products of absolute coordinates) is reported; k <= 30",
+    "deformed, then refreshed: only the history WITH the refresh is judged - without it the library reuses stored attributes by "
+    "design (DESIGN 8.4); the refresh is 'call every function of mouette.attributes that accepts the mesh alone, twice' (twice: "
+    "a quantity derived from another stored quantity sees refreshed inputs); the current coordinates are read back from the mesh "
+    "(the transforms themselves are C06's subject) and are exact rationals for the oracle; connection objects are built after the "
+    "refresh; a mesh that the deformation made ill-conditioned is filtered by the same exact predicate; a planar specimen that "
+    "left its plane or was folded is judged as a general surface (no flat connection)",
     "connection Laplacians: Hermitian, entry moduli equal to the scalar weights, flat connection == scalar operator, "
     "parallel fields in the kernel on planar meshes; the transport angles themselves belong to C18",
 ]
@@ -51,15 +70,25 @@ BOUNDS = {
              "call forms (clauses C08.defaults.*): on every 41st surface / 23rd tet mesh / 211th polyline of the above (+ octahedron, "
              "3x3 tri and quad grids, Csaszar torus; ~80 meshes) every operator with options in all 3^k states of {omitted, documented "
              "default explicit, other value} per option (k<=3), every positional prefix under 3 value vectors, everything by keyword, "
-             "numpy scalars; the pinned table of documented defaults vs inspect.signature (18 entry points)",
+             "numpy scalars; the pinned table of documented defaults vs inspect.signature (18 entry points); "
+             "far from the origin: k = 24 on every 13th surface / 7th tet mesh / 37th polyline of the above + 16 named specimens (141 / 58 / "
+             "119 meshes, full option sweep); deformed-then-refreshed: every 17th surface / 11th tet mesh / 101st polyline + the named "
+             "specimens (110 / 38 / 43 meshes), the 12 (pre-state, deformation) combinations in rotation, x both values of the "
+             "duplicate-attribute switch",
     "thorough": "as quick (full option cross product on everything quick covers), plus ALL labelled SURF(6) (12934) x {generic, lattice} "
                 "and all labelled TET(6) (2422) x 3 alphabets with the reduced option menu order=4 / format=csc (every other option "
                 "still crossed), convex 7-gon and hexagon+2 interior points, grids <=5x5, all holey 3x3 grids; call forms on the same "
-                "strides through the fully crossed families (~90 meshes)",
+                "strides through the fully crossed families (~90 meshes); far from the origin: k = 24 and 30 on every 5th surface / "
+                "5th tet mesh / 11th polyline of the fully crossed families; deformed-then-refreshed: every 7th / 5th / 29th, the "
+                "rotation plus all 12 combinations on every 4th selected mesh, x both values of the duplicate-attribute switch",
 }
 
 TOL = 1e-9
 FLOOR = 1e-12
+EPS = 2.0 ** -53
+# relative tolerance in force for the mesh being judged: TOL, except far from the origin (see FAR_*), where a computation
+# that touches absolute coordinates of magnitude 2^k legitimately carries a relative error of a few eps * 2^k / h
+TOLV = [TOL]
 
 GEN = [(9, 1, 0), (-8, 0, 2), (1, 8, -1), (0, -9, 1), (2, -1, 9), (-1, 1, -8), (6, -7, -6)]
 LAT = [(0, 0, 0), (2, 0, 0), (0, 2, 0), (0, 0, 2), (2, 2, 1), (1, 2, 2), (3, 1, 3)]
@@ -200,6 +229,61 @@ def _graph_specs(tier):
     return S
 
 
+# ---- dimension "far from the origin": the same mesh translated by T_k = (2^k, -2^k, 2^(k-1)). Every alphabet of the
+# families is integer, so the translate is exact in binary64 and the exact oracle needs no change; every clause is judged
+# as before, with the relative tolerance 2^(k-45) (= 256 eps 2^k: a computation on absolute coordinates may lose
+# eps * 2^k / h, h >= 1 the shortest edge; one that loses eps * (2^k / h)^2 - products of absolute coordinates - does not pass).
+FAR_K = {"quick": (24,), "thorough": (24, 30)}
+FAR_STRIDE = {"quick": {"surf": 13, "vol": 7, "graph": 37}, "thorough": {"surf": 5, "vol": 5, "graph": 11}}
+DIM_ALSO = ("octahedron", "icosahedron", "grid3x3tri", "grid4x4lifted", "torus3x3", "antiprism4", "csaszar:gen", "gon6+1#0:ccw", "gon6+1#0:cw",
+            "gon5+2#1:ccw", "gon5+2#1:cw", "holey3x3t10", "grid3x3quad", "iso4#0:gen", "octa_center1", "octa_center3:positive")
+
+
+def _strided(specs, stride):
+    base = [s for s in specs if not s.get("tiny") and not s.get("lite")]
+    return [s for i, s in enumerate(base) if i % stride == stride // 2 or s["name"] in DIM_ALSO]
+
+
+def _far_specs(kind, specs, tier):
+    out = []
+    for s in _strided(specs, FAR_STRIDE[tier][kind]):
+        for k in FAR_K[tier]:
+            T = (2 ** k, -(2 ** k), 2 ** (k - 1))
+            out.append(dict(s, name=f"{s['name']}:far2^{k}", far=k,
+                            pts=[[c + t for c, t in zip(list(p) + [0] * (3 - len(p)), T)] for p in s["pts"]]))
+    return out
+
+
+# ---- dimension "deformed, then refreshed": a history on ONE mesh object. (1) a pre-state: every operator of the menu
+# called once with its documented defaults (what they cache stays on the mesh) / every persistent quantity of
+# mouette.attributes requested / both; (2) the geometry changed in place, through the public API, by a map that is not a
+# similarity; (3) the documented refresh: the functions of mouette.attributes called again on the mesh (twice, so that a
+# quantity the library derives from another stored one sees refreshed inputs); (4) the complete option sweep, judged
+# against the oracle of the CURRENT coordinates (read back from the mesh, exact as rationals). Without step (3) the
+# library reuses stored attributes by design (DESIGN 8.4) - that history is not judged.
+HIST_PRE = ["ops", "attrs", "both"]
+HIST_DEFORM = [["scale_xyz", [2.0, 1.0, 0.5]], ["scale_xyz", [1.0, 4.0, 1.0]], ["move_last_vertex", [1.0, -2.0, 3.0]],
+               ["affine_by_assignment", [[2.0, 1.0, 0.0, 1.0], [0.0, 3.0, -1.0, 0.0], [0.5, 0.0, 1.0, 2.0]]]]   # rows of a 3x4 affine map, det 5.5
+HIST_COMBOS = [(p, d) for d in range(len(HIST_DEFORM)) for p in range(len(HIST_PRE))]
+HIST_STRIDE = {"quick": {"surf": 17, "vol": 11, "graph": 101}, "thorough": {"surf": 7, "vol": 5, "graph": 29}}
+
+
+def _hist_specs(kind, specs, tier):
+    out = []
+    for j, s in enumerate(_strided(specs, HIST_STRIDE[tier][kind])):
+        # quick: the 12 (pre-state, deformation) combinations in rotation; thorough: the rotation plus, on every 4th
+        # selected mesh, all 12
+        combos = [HIST_COMBOS[j % len(HIST_COMBOS)]]
+        if tier == "thorough" and j % 4 == 0:
+            combos = HIST_COMBOS
+        for p, d in combos:
+            out.append(dict(s, name=f"{s['name']}:hist{p}{d}", hist={"pre": HIST_PRE[p], "deform": HIST_DEFORM[d]}))
+    return out
+
+
+DIM_BATCH = {"surf": 4, "vol": 6, "graph": 30}
+
+
 def tasks(tier):
     out = [{"kind": "selftest"}]
     for kind, specs in (("surf", _surf_specs(tier)), ("vol", _vol_specs(tier)), ("graph", _graph_specs(tier))):
@@ -216,6 +300,12 @@ def tasks(tier):
         b = DEFAULTS_BATCH[kind]
         for i in range(0, len(sel), b):
             out.append({"kind": "defaults", "of": kind, "specs": sel[i:i + b]})
+        # the two deviations of the whole family (after the base tasks: a defect of the base case is reported there first)
+        for dim, dspecs in (("far", _far_specs(kind, specs, tier)), ("hist", _hist_specs(kind, specs, tier))):
+            dspecs.sort(key=lambda s_: len(s_["pts"]) > 7)
+            b = DIM_BATCH[kind]
+            for i in range(0, len(dspecs), b):
+                out.append({"kind": kind, "dim": dim, "specs": dspecs[i:i + b]})
     out.append({"kind": "signature"})
     return out
 
@@ -244,7 +334,7 @@ def _cmp(got, want):
         return {"at": list(idx), "got": repr(got[idx]), "want": repr(want[idx])}
     scale = float(np.max(np.abs(want)))
     d = np.abs(got - want)
-    tol = TOL * scale + FLOOR
+    tol = TOLV[0] * scale + FLOOR
     if float(d.max()) <= tol:
         return None
     idx = tuple(int(i) for i in np.argwhere(d > tol)[0])
@@ -331,6 +421,91 @@ def _check_diag(rep, out, tag, o, want_base, opts, size, kinds=("positive", "val
     bad = _cmp(dg, w)
     if bad:
         out.append((tag + ".values", "mismatch:entry", bad))
+
+
+# ================================================================================================ dimensions far / hist
+class _Dim:
+    """Scope of one spec of a 'far' / 'hist' task: input-class suffix and tolerance in force, restored on exit."""
+
+    def __init__(self, rep, spec):
+        self.rep, self.spec = rep, spec
+
+    def __enter__(self):
+        self.old = (self.rep.class_suffix, TOLV[0])
+        far, hist = self.spec.get("far"), self.spec.get("hist")
+        if far:
+            TOLV[0] = max(TOL, 2.0 ** (far - 45))
+            self.rep.class_suffix = ":far_from_origin" + self.old[0]
+        if hist:
+            self.rep.class_suffix = ":deformed_then_refreshed" + self.old[0]
+        return self
+
+    def __exit__(self, *a):
+        self.rep.class_suffix, TOLV[0] = self.old
+        return False
+
+
+def _points_now(m):
+    return [tuple(float(x) for x in m.vertices[i]) for i in range(len(m.vertices))]
+
+
+OPS_MENU = {
+    "graph": ["adjacency_matrix:length", "graph_laplacian", "vertex_to_edge_operator"],
+    "surf": ["adjacency_matrix:length", "graph_laplacian", "vertex_to_edge_operator", "vertex_to_face_operator", "laplacian", "laplacian:uniform",
+             "SurfaceConnectionVertices>laplacian", "SurfaceConnectionFaces>gradient", "SurfaceConnectionFaces>laplacian_triangles",
+             "SurfaceConnectionEdges>laplacian_edges", "area_weight_matrix", "area_weight_matrix_faces", "area_weight_matrix_edges",
+             "cotan_edge_diagonal", "laplacian_triangles", "laplacian_edges"],
+    "vol": ["adjacency_matrix:length", "graph_laplacian", "vertex_to_edge_operator", "volume_laplacian", "laplacian_tetrahedra",
+            "volume_weight_matrix", "volume_weight_matrix_cells"],
+}
+
+
+def _touch_ops(M, m, kind, rep, triangular=True):
+    """Every operator of the menu of this mesh kind, called once with its documented defaults (results are not judged
+    here: the same calls on the same geometry are judged in the regular tasks)."""
+    for item in OPS_MENU[kind]:
+        if kind == "surf" and not triangular and item not in OPS_MENU["graph"] + ["vertex_to_face_operator"]:
+            continue
+        if ">" in item:
+            cname, opname = item.split(">")
+            oc = call(_resolve(M, cname), m)
+            rep.transitions += 1
+            if not oc.ok:
+                continue
+            o = call(getattr(M.operators, opname), m, oc.value) if opname == "gradient" else call(getattr(M.operators, opname), m, connection=oc.value)
+        elif ":" in item:
+            opname, arg = item.split(":")
+            o = call(getattr(M.operators, opname), m, "length") if arg == "length" else call(getattr(M.operators, opname), m, cotan=False)
+        else:
+            o = call(getattr(M.operators, item), m)
+        rep.transitions += 1
+        rep.flag("hist:touched:" + item + (":ok" if o.ok else ":raises"))
+
+
+def _history(M, m, kind, hist, rep, triangular=True):
+    """Pre-state, in-place deformation, documented refresh (see HIST_*). -> (points before, points now)."""
+    pre, (dname, darg) = hist["pre"], hist["deform"]
+    if pre in ("ops", "both"):
+        _touch_ops(M, m, kind, rep, triangular)
+    if pre in ("attrs", "both"):
+        F.request_all_persistent_attributes(m)
+    before = _points_now(m)
+    if dname == "scale_xyz":
+        M.transform.scale_xyz(m, *darg)
+    elif dname == "move_last_vertex":
+        v = len(m.vertices) - 1
+        m.vertices[v] = m.vertices[v] + M.Vec(*darg)
+    else:
+        for i, (x, y, z) in enumerate(before):
+            m.vertices[i] = M.Vec(*(r[0] * x + r[1] * y + r[2] * z + r[3] for r in darg))
+    rep.transitions += 1
+    for _ in range(2):
+        made = F.request_all_persistent_attributes(m)
+    rep.transitions += 2 * made
+    rep.flag(f"hist:{kind}:pre={pre}")
+    rep.flag(f"hist:{kind}:deform={dname}")
+    rep.count(f"hist:{kind}:histories")
+    return before, _points_now(m)
 
 
 # ================================================================================================ graph-type operators
@@ -468,18 +643,49 @@ def _graph_ops(cx: Ctx, M, m, n, P, poly_faces=None):
 
 
 # ================================================================================================ surfaces
+def _flat_and_unfolded(pts, faces):
+    P = O.fr_pts(pts)
+    return len(set(p[2] for p in P)) == 1 and len(set(O.orient2d(P[f[0]], P[f[1]], P[f[2]]) > 0 for f in faces)) == 1
+
+
 def _surface(M, spec, rep: Report):
+    with _Dim(rep, spec):
+        _surface_body(M, spec, rep)
+
+
+def _surface_body(M, spec, rep: Report):
     np = _np()
     pts = [tuple(p) for p in spec["pts"]]
     faces = [tuple(f) for f in spec["faces"]]
     planar, iso, poly, cw = (bool(spec.get(k)) for k in ("planar", "iso", "poly", "cw"))
+    far, hist = spec.get("far"), spec.get("hist")
+    dim = "far" if far else ("hist" if hist else None)
     n = len(pts)
+    m = None
+    if hist:
+        m = F.build_surface(pts, faces)
+        before, pts = _history(M, m, "surf", hist, rep, triangular=not poly)
+        if planar and not _flat_and_unfolded(pts, faces):
+            planar = False          # the deformation left the plane (or folded the triangulation): a general surface now
+        if not poly and not iso:
+            c0 = [c for cc in O.SurfOracle(before, faces, n).cot for c in cc]
+            c1 = [c for cc in O.SurfOracle(pts, faces, n).cot for c in cc] if all(O.tri_ok(O.fr_pts(pts), f) for f in faces) else c0
+            if max(abs(x - y) for x, y in zip(c0, c1)) > 1e-3:
+                rep.count("hist:surf:deformation_changed_a_cotangent")
     P = O.fr_pts(pts)
     rep.count("surfaces_enumerated")
+    if dim:
+        rep.count(dim + ":surfaces_enumerated")
     if not poly and not all(O.tri_ok(P, f) for f in faces):
         rep.count("filtered_ill_conditioned"); rep.count("filtered_ill_conditioned:surfaces")
         return
-    m = F.build_surface(pts, faces)
+    if dim:
+        rep.count(dim + ":surfaces_judged")
+        if hist:
+            rep.flag(f"hist:surf:judged:{hist['pre']}:{HIST_DEFORM.index(hist['deform'])}")
+        rep.flag(dim + ":surf:" + ("poly" if poly else "iso" if iso else "planar" if planar else "closed" if not F.border_half_edges(faces) else "bordered"))
+    if m is None:
+        m = F.build_surface(pts, faces)
     got_faces = [tuple(int(v) for v in f) for f in m.faces]
     if got_faces != faces or len(m.vertices) != n:
         rep.count("premise_failed:faces_reordered"); return
@@ -497,7 +703,8 @@ def _surface(M, spec, rep: Report):
     if len(faces) == 1:
         rep.flag("surf:F=1")
     key = (tuple(pts), tuple(faces))
-    cx = Ctx(rep, mclass, {"pts": spec["pts"], "faces": spec["faces"], "name": spec["name"]}, key, fine=fine, planar=planar)
+    cx = Ctx(rep, mclass, {"pts": spec["pts"], "faces": spec["faces"], "name": spec["name"],
+                           **({"history": hist, "pts_now": [list(p) for p in pts]} if hist else {})}, key, fine=fine, planar=planar)
     if len(rep.samples) < 2:
         rep.sample({"name": spec["name"], "pts": spec["pts"], "faces": spec["faces"]})
 
@@ -650,6 +857,10 @@ def _surface(M, spec, rep: Report):
             want = X @ av + 1j * (Y @ av)
             err = np.abs(gotc - want)
             tol = TOL * max(scale_g * float(np.abs(fv).max()), 1.0) + FLOOR
+            if far:
+                # |f| ~ 2^k here: the relative error of the entries of G acts on the differences of f only (the rows of
+                # G sum to zero), the rounding of the product G f on the values of f themselves
+                tol = TOLV[0] * max(scale_g * float(fv.max() - fv.min()), 1.0) + 64 * EPS * scale_g * float(np.abs(fv).max()) + FLOOR
             if float(err.max()) > tol:
                 t = int(np.argmax(err))
                 out.append(("gradient.affine", "mismatch:gradient_of_affine_function",
@@ -674,7 +885,7 @@ def _surface(M, spec, rep: Report):
         _check_diag(rep, out, "mass.vertices", o, vA, opts, n)
         if o.ok and not opts["inverse"] and not opts["sqrt"] and tuple(o.value.shape) == (n, n):
             s = float(_dense(o.value).sum())
-            if abs(s - 3 * so.total_area) > TOL * 3 * so.total_area:
+            if abs(s - 3 * so.total_area) > TOLV[0] * 3 * so.total_area:
                 out.append(("mass.vertices.sum", "mismatch:sum_not_3_area", {"got": s, "want": 3 * so.total_area}))
     cx.sweep("area_weight_matrix", {"inverse": [False, True], "sqrt": [False, True], "format": formats}, f_mv)
 
@@ -683,7 +894,7 @@ def _surface(M, spec, rep: Report):
         _check_diag(rep, out, "mass.faces", o, so.area, opts, nf)
         if o.ok and not opts["inverse"] and tuple(o.value.shape) == (nf, nf):
             s = float(_dense(o.value).sum())
-            if abs(s - so.total_area) > TOL * so.total_area:
+            if abs(s - so.total_area) > TOLV[0] * so.total_area:
                 out.append(("mass.faces.sum", "mismatch:sum_not_area", {"got": s, "want": so.total_area}))
     cx.sweep("area_weight_matrix_faces", {"inverse": [False, True], "format": formats}, f_mf)
 
@@ -692,7 +903,7 @@ def _surface(M, spec, rep: Report):
         _check_diag(rep, out, "mass.edges", o, eA, opts, me)
         if o.ok and not opts["inverse"] and tuple(o.value.shape) == (me, me):
             s = float(_dense(o.value).sum())
-            if abs(s - so.total_area) > TOL * so.total_area:
+            if abs(s - so.total_area) > TOLV[0] * so.total_area:
                 out.append(("mass.edges.sum", "mismatch:sum_not_area", {"got": s, "want": so.total_area}))
     cx.sweep("area_weight_matrix_edges", {"inverse": [False, True]}, f_me)
 
@@ -792,7 +1003,7 @@ def _surface(M, spec, rep: Report):
                 co = c.value
                 u = np.array([complex(float(co.base(t)[0][0]), float(co.base(t)[1][0])) ** opts["order"] for t in range(nf)])
                 r = A @ u
-                if float(np.abs(r).max()) > TOL * max(mx, 1.0) * 10:
+                if float(np.abs(r).max()) > TOLV[0] * max(mx, 1.0) * 10:
                     out.append(("laplacian_triangles.parallel_field_in_kernel", "mismatch:residual",
                                 {"max_residual": float(np.abs(r).max()), "scale": mx}))
     cx.sweep("laplacian_triangles", {"connection": ["none", "SurfaceConnectionFaces"] + (["FlatConnectionFaces"] if planar else []),
@@ -856,16 +1067,41 @@ def _surface(M, spec, rep: Report):
 
 # ================================================================================================ volumes
 def _volume(M, spec, rep: Report):
+    with _Dim(rep, spec):
+        _volume_body(M, spec, rep)
+
+
+def _volume_body(M, spec, rep: Report):
     np = _np()
     pts = [tuple(p) for p in spec["pts"]]
     cells = [tuple(c) for c in spec["cells"]]
+    far, hist = spec.get("far"), spec.get("hist")
+    dim = "far" if far else ("hist" if hist else None)
     n = len(pts)
+    m = None
+    if hist:
+        m = F.build_volume(pts, cells)
+        before, pts = _history(M, m, "vol", hist, rep)
+        v0, v1 = O.VolOracle(before, cells), O.VolOracle(pts, cells)
+        if any(a_ != b_ for a_, b_ in zip(v0.vol, v1.vol)):
+            rep.count("hist:vol:deformation_changed_a_volume")
+        if all(O.tet_ok(O.fr_pts(q), c) for q in (before, pts) for c in cells) and _cmp(np.array(v1.stiffness()), np.array(v0.stiffness())):
+            rep.count("hist:vol:deformation_changed_the_stiffness")
     P = O.fr_pts(pts)
     rep.count("volumes_enumerated")
+    if dim:
+        rep.count(dim + ":volumes_enumerated")
     if not all(O.tet_ok(P, c) for c in cells):
         rep.count("filtered_ill_conditioned"); rep.count("filtered_ill_conditioned:volumes")
         return
-    m = F.build_volume(pts, cells)
+    if dim:
+        rep.count(dim + ":volumes_judged")
+        if hist:
+            rep.flag(f"hist:vol:judged:{hist['pre']}:{HIST_DEFORM.index(hist['deform'])}")
+        if any(O.dot(O.sub(P[c[1]], P[c[0]]), O.cross(O.sub(P[c[2]], P[c[0]]), O.sub(P[c[3]], P[c[0]]))) < 0 for c in cells):
+            rep.flag(dim + ":vol:indirect_cell")
+    if m is None:
+        m = F.build_volume(pts, cells)
     got_cells = [tuple(int(v) for v in c) for c in m.cells]
     if got_cells != cells or len(m.vertices) != n:
         rep.count("premise_failed:cells_reordered"); return
@@ -886,7 +1122,8 @@ def _volume(M, spec, rep: Report):
         if obtuse:
             rep.flag("vol:interior_vertex+obtuse")
     key = (tuple(pts), tuple(cells))
-    cx = Ctx(rep, mclass, {"pts": spec["pts"], "cells": spec["cells"], "name": spec["name"]}, key,
+    cx = Ctx(rep, mclass, {"pts": spec["pts"], "cells": spec["cells"], "name": spec["name"],
+                           **({"history": hist, "pts_now": [list(p) for p in pts]} if hist else {})}, key,
              fine=mclass + (":C=1" if nc == 1 else ""))
     if len(rep.samples) < 4 and nc > 2:
         rep.sample({"name": spec["name"], "pts": spec["pts"], "cells": spec["cells"]})
@@ -951,7 +1188,7 @@ def _volume(M, spec, rep: Report):
         _check_diag(rep, out, "mass.tet_vertices", o, vV, opts, n)
         if o.ok and not opts["inverse"] and not opts["sqrt"] and tuple(o.value.shape) == (n, n):
             s = float(_dense(o.value).sum())
-            if abs(s - 4 * tot) > TOL * 4 * tot:
+            if abs(s - 4 * tot) > TOLV[0] * 4 * tot:
                 out.append(("mass.tet_vertices.sum", "mismatch:sum_not_4_volume", {"got": s, "want": 4 * tot}))
     cx.sweep("volume_weight_matrix", {"inverse": [False, True], "sqrt": [False, True], "format": formats}, f_wv)
 
@@ -960,19 +1197,28 @@ def _volume(M, spec, rep: Report):
         _check_diag(rep, out, "mass.cells", o, cV, opts, nc)
         if o.ok and not opts["inverse"] and not opts["sqrt"] and tuple(o.value.shape) == (nc, nc):
             s = float(_dense(o.value).sum())
-            if abs(s - tot) > TOL * tot:
+            if abs(s - tot) > TOLV[0] * tot:
                 out.append(("mass.cells.sum", "mismatch:sum_not_volume", {"got": s, "want": tot}))
     cx.sweep("volume_weight_matrix_cells", {"inverse": [False, True], "sqrt": [False, True], "format": formats}, f_wc)
 
 
 # ================================================================================================ polylines
 def _polyline(M, spec, rep: Report):
+    with _Dim(rep, spec):
+        _polyline_body(M, spec, rep)
+
+
+def _polyline_body(M, spec, rep: Report):
     pts = [tuple(p) for p in spec["pts"]]
     edges = [tuple(e) for e in spec["edges"]]
+    far, hist = spec.get("far"), spec.get("hist")
+    dim = "far" if far else ("hist" if hist else None)
     n = len(pts)
-    P = O.fr_pts(pts)
     m = F.build_polyline(pts, edges)
-    rep.count("polylines_enumerated")
+    if hist:
+        _, pts = _history(M, m, "graph", hist, rep)
+    P = O.fr_pts(pts)
+    rep.count(dim + ":polylines_enumerated" if dim else "polylines_enumerated")     # the pinned family size counts the base family only
     if len(m.vertices) != n or sorted((min(a, b), max(a, b)) for a, b in m.edges) != sorted((min(a, b), max(a, b)) for a, b in edges):
         rep.count("premise_failed:polyline_edges_changed"); return
     rep.states += 1
@@ -991,7 +1237,8 @@ def _polyline(M, spec, rep: Report):
         rep.flag("polyline:stored_edge_descending")
     if len(F.components(n, edges)) > 1:
         rep.flag("polyline:disconnected")
-    cx = Ctx(rep, mclass, {"pts": spec["pts"], "edges": spec["edges"], "name": spec["name"]}, (tuple(pts), tuple(edges)), fine=fine)
+    cx = Ctx(rep, mclass, {"pts": spec["pts"], "edges": spec["edges"], "name": spec["name"],
+                           **({"history": hist, "pts_now": [list(p) for p in pts]} if hist else {})}, (tuple(pts), tuple(edges)), fine=fine)
     _graph_ops(cx, M, m, n, P)
 
 
@@ -1341,16 +1588,36 @@ def finish(tier, rep: Report):
         fails.append(f"too few well-conditioned surfaces were checked: {nsurf}")
     if nvol < (150 if tier == "quick" else 3000):
         fails.append(f"too few well-conditioned tetrahedral meshes were checked: {nvol}")
+    # ---- dimension "far from the origin"
+    q = tier == "quick"
+    for name, least in (("far:surfaces_judged", 80 if q else 400), ("far:volumes_judged", 40 if q else 100), ("far:polylines_enumerated", 100 if q else 600),
+                        # ---- dimension "deformed, then refreshed" (regular run and run under the duplicate-attribute switch)
+                        ("hist:surfaces_judged", 70 if q else 600), ("hist:volumes_judged", 15 if q else 100), ("hist:polylines_enumerated", 40 if q else 400),
+                        ("hist:surf:deformation_changed_a_cotangent", 60 if q else 500), ("hist:vol:deformation_changed_a_volume", 15 if q else 100),
+                        ("hist:vol:deformation_changed_the_stiffness", 15 if q else 100),
+                        ("duplicate_attribute_flag:hist:surfaces_judged", 70 if q else 600), ("duplicate_attribute_flag:hist:volumes_judged", 15 if q else 100)):
+        if c.get(name, 0) < least:
+            fails.append(f"new dimension too thin: {name} = {c.get(name, 0)} < {least}")
+    for f in ["far:surf:closed", "far:surf:bordered", "far:surf:planar", "far:surf:poly", "far:surf:iso", "far:vol:indirect_cell",
+              "hist:surf:closed", "hist:surf:bordered", "hist:surf:planar", "hist:vol:indirect_cell"] + \
+             [f"hist:{k}:pre={p_}" for k in ("surf", "vol", "graph") for p_ in HIST_PRE] + \
+             [f"hist:{k}:deform={d_[0]}" for k in ("surf", "vol", "graph") for d_ in HIST_DEFORM] + \
+             [f"hist:surf:judged:{HIST_PRE[p_]}:{d_}" for p_, d_ in HIST_COMBOS] + \
+             ([f"hist:vol:judged:{HIST_PRE[p_]}:{d_}" for p_, d_ in HIST_COMBOS] if not q else []) + \
+             [f"hist:touched:{it}:ok" for k in ("surf", "vol") for it in OPS_MENU[k]]:
+        if f not in rep.flags:
+            fails.append("coverage flag missing: " + f)
     return fails
 
 
 def dupflag_variant(task, tier):
     """Tasks that are also run with config.display_duplicate_attribute_warning = True (the runner appends
-    ':duplicate_attribute_flag' to the input class of anything found there)."""
-    return bool(task.get("kind") == "vol")
+    ':duplicate_attribute_flag' to the input class of anything found there): the volume tasks, and every history
+    'deformed, then refreshed' (under the switch a re-requested attribute is handed back and refilled instead of replaced)."""
+    return bool((task.get("kind") == "vol" and task.get("dim") != "far") or task.get("dim") == "hist")
 
 
 def warm_variant(task, tier):
     """Tasks that are also run on meshes whose attribute blackboard is already filled with (valid) persistent attributes
     (mc/families.py WARM; the runner appends ':warm_attribute_blackboard' to the input class of anything found there)."""
-    return bool(task.get("kind") in ("surf", "vol"))
+    return bool(task.get("kind") in ("surf", "vol") and not task.get("dim"))
